@@ -937,7 +937,7 @@ def vector_mass_script(ctx, mir, paths, a, label):
         if len(ms) > 2:
             d[ms[2][0]] = 0.0
         go(obj, "addmasses", {"d": d})
-    for obj in comps[:1] + [b]:
+    for obj in (comps[:1] + [b] if ctx.thorough else comps[:1]):
         ms = masses(obj, 2)
         if ms:
             go(obj, "setmasses", {"d": {n: (64.0 if i == 0 else 0.5 * m + 1.0) for i, (n, m) in enumerate(ms)}})
@@ -1164,8 +1164,9 @@ def run_assemblies(ctx, r):
         targets = [a] + blocks + [c for b in rng.sample(blocks, min(2, len(blocks))) for c in rng.sample(list(b), 2)]
         label = f"assembly sym={a.getSymmetryFactor():g}"
         paths = edit_sequence(ctx, mir, [a], paths, targets, ctx.pick(10, 60), label)
-        paths = mir.load([a], extra_nucs=("PU239", "AM241", "HE4"))
-        vector_mass_script(ctx, mir, paths, a, label)
+        if ctx.thorough or a.getSymmetryFactor() != 1.0:
+            paths = mir.load([a], extra_nucs=("PU239", "AM241", "HE4"))
+            vector_mass_script(ctx, mir, paths, a, label)
         element_level_edits(ctx, mir, paths, [a, blocks[1], list(blocks[1])[0]], label)
         run_session(ctx, mir, label)
 
@@ -1679,10 +1680,13 @@ def run_structure(ctx, r):
     for ai, a0 in enumerate(pool):
         for kind in kinds:
             for remesh in (False, True):
-                if not ctx.thorough and ai > 0 and (remesh or kind in ("remove-middle", "setHeight")):
+                if not ctx.thorough and (ai > 0 and (remesh or kind != "insert")
+                                         or ai == 0 and remesh and kind in ("remove-middle", "setHeight")):
                     continue
                 with common.quiet():
                     a = copy.deepcopy(a0)
+                    for b_ in a:
+                        b_.clearCache()   # a detached copy has symmetry factor 1: cached areas of a cut assembly are void
                 EPOCH[0] += 1
                 case = {"stream": "structure", "assembly": a0.name, "edit": kind, "remesh": remesh}
                 fail = lambda k, cl, o, e, case=case: ctx.fail(k, cl, case, observed=o, expected=e)  # noqa: E731
@@ -1693,6 +1697,7 @@ def run_structure(ctx, r):
                             nb = copy.deepcopy(a[1])
                             nb.setName(nb.name + "x")
                             a.insert(2, nb)
+                            nb.clearCache()    # the block-area cache must be cleared by whoever re-parents a block (documented)
                         elif kind == "remove-middle":
                             a.remove(a[2])
                         elif kind == "setHeight":
